@@ -72,3 +72,175 @@ package wkb
 //@   loop 1 `for i := uint32(0); i < numGeometries; i++`
 //@     invariant 0 <= i && i <= numGeometries && len(geoms) == numGeometries && fresh(geoms)
 //@     decreases numGeometries - i
+
+// ===================== C05: token-level layout of the encoder =====================
+// Streams are seen through the token model of /verif/contracts/external/encoding_binary.spec:
+// ghost(w,"n") tokens, token i = ghostAt(w,"tok",i), one token per binary.Write call.
+// OGC WKB layout at token level:
+//   geometry   := u8 byte-order flag (0 XDR/big, 1 NDR/little) · u32 type code · body
+//   Point body := point            LineString body := u32 n · run of n points
+//   Polygon body := u32 rings · (u32 n · run of n points) per ring
+//   Multi*/collection body := u32 count · count nested geometries (each with its own flag and code)
+
+//@ pred u8At(s interface{}, i int, v int) = tokKind(ghostAt(s, "tok", i)) == 1 && tokU(ghostAt(s, "tok", i)) == v
+//@ pred u32At(s interface{}, i int, oc int, v int) = tokKind(ghostAt(s, "tok", i)) == 2 && tokOrder(ghostAt(s, "tok", i)) == oc && tokU(ghostAt(s, "tok", i)) == v
+//@ pred ptAt(s interface{}, i int, oc int, p geom.Point) = tokKind(ghostAt(s, "tok", i)) == 3 && tokOrder(ghostAt(s, "tok", i)) == oc && tokSamePt(tokPt(ghostAt(s, "tok", i)), p)
+//@ pred runAt(s interface{}, i int, oc int, ps []geom.Point) = tokKind(ghostAt(s, "tok", i)) == 4 && tokOrder(ghostAt(s, "tok", i)) == oc && tokN(ghostAt(s, "tok", i)) == len(ps) && (forall k int :: 0 <= k && k < len(ps) ==> tokSamePt(tokPtAt(ghostAt(s, "tok", i), k), ps[k]))
+//@ pred ptsAt(s interface{}, i int, oc int, ps []geom.Point) = u32At(s, i, oc, len(ps)) && runAt(s, i + 1, oc, ps)
+//@ pred hdrAt(s interface{}, i int, oc int, code int) = u8At(s, i, oc) && u32At(s, i + 1, oc, code)
+//@ pred orderOK(o binary.ByteOrder) = orderCode(o) == 0 || orderCode(o) == 1
+
+//@ func writePoint
+//@   prop C05
+//@   mode ufloat
+//@   requires [stream] typeof(w) != nil && typeof(byteOrder) != nil
+//@   ensures [layout] result == nil ==> ghost(w, "n") == old(ghost(w, "n")) + 1 && (forall i int :: i < old(ghost(w, "n")) ==> ghostAt(w, "tok", i) == old(ghostAt(w, "tok", i))) && ptAt(w, old(ghost(w, "n")), orderCode(byteOrder), point)
+//@   modifies ghost(w, "n"), ghost(w, "tok")
+
+//@ func writePoints
+//@   prop C05
+//@   mode ufloat
+//@   requires [stream] typeof(w) != nil && typeof(byteOrder) != nil
+//@   requires [count_fits] len(points) <= 4294967295
+//@   ensures [count] result == nil ==> ghost(w, "n") == old(ghost(w, "n")) + 2
+//@   ensures [prefix] result == nil ==> (forall i int :: i < old(ghost(w, "n")) ==> ghostAt(w, "tok", i) == old(ghostAt(w, "tok", i)))
+//@   ensures [length_token] result == nil ==> u32At(w, old(ghost(w, "n")), orderCode(byteOrder), len(points))
+//@   ensures [run_token] result == nil ==> runAt(w, old(ghost(w, "n")) + 1, orderCode(byteOrder), points)
+//@   modifies ghost(w, "n"), ghost(w, "tok")
+
+//@ pred polyBodyAt(s interface{}, b int, oc int, rings []geom.Path) = u32At(s, b, oc, len(rings)) && (forall k int :: 0 <= k && k < len(rings) ==> ptsAt(s, b + 1 + 2 * k, oc, rings[k]))
+
+//@ func writePointss
+//@   prop C05
+//@   mode ufloat
+//@   requires [stream] typeof(w) != nil && typeof(byteOrder) != nil
+//@   requires [counts_fit] len(pointss) <= 4294967295 && (forall k int :: 0 <= k && k < len(pointss) ==> len(pointss[k]) <= 4294967295)
+//@   ensures [count] result == nil ==> ghost(w, "n") == old(ghost(w, "n")) + 1 + 2 * len(pointss)
+//@   ensures [prefix] result == nil ==> (forall i int :: i < old(ghost(w, "n")) ==> ghostAt(w, "tok", i) == old(ghostAt(w, "tok", i)))
+//@   ensures [body] result == nil ==> polyBodyAt(w, old(ghost(w, "n")), orderCode(byteOrder), pointss)
+//@   modifies ghost(w, "n"), ghost(w, "tok")
+//@   loop 1 `for _, points := range pointss`
+//@     invariant [count] #1 <= len(pointss) && ghost(w, "n") == old(ghost(w, "n")) + 1 + 2 * #1
+//@     invariant [prefix] forall i int :: i < old(ghost(w, "n")) ==> ghostAt(w, "tok", i) == old(ghostAt(w, "tok", i))
+//@     invariant [length_token] u32At(w, old(ghost(w, "n")), orderCode(byteOrder), len(pointss))
+//@     invariant [rings] forall k int :: 0 <= k && k < #1 ==> ptsAt(w, old(ghost(w, "n")) + 1 + 2 * k, orderCode(byteOrder), pointss[k])
+
+//@ func writeLineString
+//@   prop C05
+//@   mode ufloat
+//@   requires [stream] typeof(w) != nil && typeof(byteOrder) != nil
+//@   requires [count_fits] len(lineString) <= 4294967295
+//@   ensures [count] result == nil ==> ghost(w, "n") == old(ghost(w, "n")) + 2
+//@   ensures [prefix] result == nil ==> (forall i int :: i < old(ghost(w, "n")) ==> ghostAt(w, "tok", i) == old(ghostAt(w, "tok", i)))
+//@   ensures [body] result == nil ==> ptsAt(w, old(ghost(w, "n")), orderCode(byteOrder), lineString)
+//@   modifies ghost(w, "n"), ghost(w, "tok")
+
+//@ func writePolygon
+//@   prop C05
+//@   mode ufloat
+//@   requires [stream] typeof(w) != nil && typeof(byteOrder) != nil
+//@   requires [counts_fit] len(polygon) <= 4294967295 && (forall k int :: 0 <= k && k < len(polygon) ==> len(polygon[k]) <= 4294967295)
+//@   ensures [count] result == nil ==> ghost(w, "n") == old(ghost(w, "n")) + 1 + 2 * len(polygon)
+//@   ensures [prefix] result == nil ==> (forall i int :: i < old(ghost(w, "n")) ==> ghostAt(w, "tok", i) == old(ghostAt(w, "tok", i)))
+//@   ensures [body] result == nil ==> polyBodyAt(w, old(ghost(w, "n")), orderCode(byteOrder), polygon)
+//@   modifies ghost(w, "n"), ghost(w, "tok")
+
+// Layout of a whole geometry at token position b (oc = byte-order code written in the flag).
+//@ spec mpolyOff(mp geom.MultiPolygon, k int) int decreases k = k <= 0 ? 0 : mpolyOff(mp, k-1) + 3 + 2 * len(mp[k-1])
+//@ spec encLen(g geom.Geom) int = typeof(g) == geom.Point ? 3 : (typeof(g) == geom.LineString ? 4 : (typeof(g) == geom.Polygon ? 3 + 2 * len(g.(geom.Polygon)) : (typeof(g) == geom.MultiPoint ? 3 + 3 * len(g.(geom.MultiPoint)) : (typeof(g) == geom.MultiLineString ? 3 + 4 * len(g.(geom.MultiLineString)) : (typeof(g) == geom.MultiPolygon ? 3 + mpolyOff(g.(geom.MultiPolygon), len(g.(geom.MultiPolygon))) : 0)))))
+//@ pred pointEncAt(s interface{}, b int, oc int, p geom.Point) = hdrAt(s, b, oc, 1) && ptAt(s, b + 2, oc, p)
+//@ pred lineEncAt(s interface{}, b int, oc int, l []geom.Point) = hdrAt(s, b, oc, 2) && ptsAt(s, b + 2, oc, l)
+//@ pred polyEncAt(s interface{}, b int, oc int, rings []geom.Path) = hdrAt(s, b, oc, 3) && polyBodyAt(s, b + 2, oc, rings)
+//@ pred encAt(s interface{}, b int, oc int, g geom.Geom) = (typeof(g) == geom.Point ==> pointEncAt(s, b, oc, g.(geom.Point))) && (typeof(g) == geom.LineString ==> lineEncAt(s, b, oc, g.(geom.LineString))) && (typeof(g) == geom.Polygon ==> polyEncAt(s, b, oc, g.(geom.Polygon))) && (typeof(g) == geom.MultiPoint ==> hdrAt(s, b, oc, 4) && u32At(s, b + 2, oc, len(g.(geom.MultiPoint))) && (forall k int :: 0 <= k && k < len(g.(geom.MultiPoint)) ==> pointEncAt(s, b + 3 + 3 * k, oc, g.(geom.MultiPoint)[k]))) && (typeof(g) == geom.MultiLineString ==> hdrAt(s, b, oc, 5) && u32At(s, b + 2, oc, len(g.(geom.MultiLineString))) && (forall k int :: 0 <= k && k < len(g.(geom.MultiLineString)) ==> lineEncAt(s, b + 3 + 4 * k, oc, g.(geom.MultiLineString)[k]))) && (typeof(g) == geom.MultiPolygon ==> hdrAt(s, b, oc, 6) && u32At(s, b + 2, oc, len(g.(geom.MultiPolygon))) && (forall k int :: 0 <= k && k < len(g.(geom.MultiPolygon)) ==> polyEncAt(s, b + 3 + mpolyOff(g.(geom.MultiPolygon), k), oc, g.(geom.MultiPolygon)[k])))
+//@ pred sizesFit(g geom.Geom) decreases 0 = (typeof(g) == geom.GeometryCollection ==> len(g.(geom.GeometryCollection)) <= 4294967295 && (forall k int :: 0 <= k && k < len(g.(geom.GeometryCollection)) ==> sizesFit(g.(geom.GeometryCollection)[k]))) && (typeof(g) == geom.LineString ==> len(g.(geom.LineString)) <= 4294967295) && (typeof(g) == geom.Polygon ==> len(g.(geom.Polygon)) <= 4294967295 && (forall k int :: 0 <= k && k < len(g.(geom.Polygon)) ==> len(g.(geom.Polygon)[k]) <= 4294967295)) && (typeof(g) == geom.MultiPoint ==> len(g.(geom.MultiPoint)) <= 4294967295) && (typeof(g) == geom.MultiLineString ==> len(g.(geom.MultiLineString)) <= 4294967295 && (forall k int :: 0 <= k && k < len(g.(geom.MultiLineString)) ==> len(g.(geom.MultiLineString)[k]) <= 4294967295)) && (typeof(g) == geom.MultiPolygon ==> len(g.(geom.MultiPolygon)) <= 4294967295 && (forall k int, j int :: 0 <= k && k < len(g.(geom.MultiPolygon)) ==> len(g.(geom.MultiPolygon)[k]) <= 4294967295 && (0 <= j && j < len(g.(geom.MultiPolygon)[k]) ==> len(g.(geom.MultiPolygon)[k][j]) <= 4294967295)))
+
+//@ func Write
+//@   prop C05
+//@   mode ufloat
+//@   requires [stream] typeof(w) != nil && typeof(byteOrder) != nil
+//@   requires [sizes] sizesFit(g)
+//@   ensures [unsupported_order] !orderOK(byteOrder) ==> result != nil
+//@   ensures [count] result == nil && typeof(g) != geom.GeometryCollection ==> ghost(w, "n") == old(ghost(w, "n")) + encLen(g)
+//@   ensures [prefix] result == nil ==> (forall i int :: i < old(ghost(w, "n")) ==> ghostAt(w, "tok", i) == old(ghostAt(w, "tok", i)))
+//@   ensures [layout] result == nil ==> encAt(w, old(ghost(w, "n")), orderCode(byteOrder), g)
+//@   ensures [grows] result == nil ==> ghost(w, "n") >= old(ghost(w, "n")) + 3
+//@     using mpolyOff_nonneg(g.(geom.MultiPolygon), len(g.(geom.MultiPolygon)))
+//@   ensures [collection_header] result == nil && typeof(g) == geom.GeometryCollection ==> hdrAt(w, old(ghost(w, "n")), orderCode(byteOrder), 7) && u32At(w, old(ghost(w, "n")) + 2, orderCode(byteOrder), len(g.(geom.GeometryCollection)))
+//@   ensures [unsupported_type] typeof(g) != geom.Point && typeof(g) != geom.LineString && typeof(g) != geom.Polygon && typeof(g) != geom.MultiPoint && typeof(g) != geom.MultiLineString && typeof(g) != geom.MultiPolygon && typeof(g) != geom.GeometryCollection ==> result != nil
+//@   modifies ghost(w, "n"), ghost(w, "tok")
+
+//@ func writeMultiPoint
+//@   prop C05
+//@   mode ufloat
+//@   requires [stream] typeof(w) != nil && typeof(byteOrder) != nil
+//@   requires [count_fits] len(multiPoint) <= 4294967295
+//@   ensures [count] result == nil ==> ghost(w, "n") == old(ghost(w, "n")) + 1 + 3 * len(multiPoint)
+//@   ensures [prefix] result == nil ==> (forall i int :: i < old(ghost(w, "n")) ==> ghostAt(w, "tok", i) == old(ghostAt(w, "tok", i)))
+//@   ensures [body] result == nil ==> u32At(w, old(ghost(w, "n")), orderCode(byteOrder), len(multiPoint)) && (forall k int :: 0 <= k && k < len(multiPoint) ==> pointEncAt(w, old(ghost(w, "n")) + 1 + 3 * k, orderCode(byteOrder), multiPoint[k]))
+//@   modifies ghost(w, "n"), ghost(w, "tok")
+//@   loop 1 `for _, point := range multiPoint`
+//@     invariant [count] #1 <= len(multiPoint) && ghost(w, "n") == old(ghost(w, "n")) + 1 + 3 * #1
+//@     invariant [prefix] forall i int :: i < old(ghost(w, "n")) ==> ghostAt(w, "tok", i) == old(ghostAt(w, "tok", i))
+//@     invariant [length_token] u32At(w, old(ghost(w, "n")), orderCode(byteOrder), len(multiPoint))
+//@     invariant [members] forall k int :: 0 <= k && k < #1 ==> pointEncAt(w, old(ghost(w, "n")) + 1 + 3 * k, orderCode(byteOrder), multiPoint[k])
+
+//@ func writeMultiLineString
+//@   prop C05
+//@   mode ufloat
+//@   requires [stream] typeof(w) != nil && typeof(byteOrder) != nil
+//@   requires [counts_fit] len(multiLineString) <= 4294967295 && (forall k int :: 0 <= k && k < len(multiLineString) ==> len(multiLineString[k]) <= 4294967295)
+//@   ensures [count] result == nil ==> ghost(w, "n") == old(ghost(w, "n")) + 1 + 4 * len(multiLineString)
+//@   ensures [prefix] result == nil ==> (forall i int :: i < old(ghost(w, "n")) ==> ghostAt(w, "tok", i) == old(ghostAt(w, "tok", i)))
+//@   ensures [body] result == nil ==> u32At(w, old(ghost(w, "n")), orderCode(byteOrder), len(multiLineString)) && (forall k int :: 0 <= k && k < len(multiLineString) ==> lineEncAt(w, old(ghost(w, "n")) + 1 + 4 * k, orderCode(byteOrder), multiLineString[k]))
+//@   modifies ghost(w, "n"), ghost(w, "tok")
+//@   loop 1 `for _, lineString := range multiLineString`
+//@     invariant [count] #1 <= len(multiLineString) && ghost(w, "n") == old(ghost(w, "n")) + 1 + 4 * #1
+//@     invariant [prefix] forall i int :: i < old(ghost(w, "n")) ==> ghostAt(w, "tok", i) == old(ghostAt(w, "tok", i))
+//@     invariant [length_token] u32At(w, old(ghost(w, "n")), orderCode(byteOrder), len(multiLineString))
+//@     invariant [members] forall k int :: 0 <= k && k < #1 ==> lineEncAt(w, old(ghost(w, "n")) + 1 + 4 * k, orderCode(byteOrder), multiLineString[k])
+
+//@ lemma mpolyOff_nonneg(mp geom.MultiPolygon, k int)
+//@   induction k
+//@   requires k >= 0 && k <= len(mp)
+//@   ensures mpolyOff(mp, k) >= 0
+
+//@ lemma mpolyOff_mono_all(mp geom.MultiPolygon, b int)
+//@   induction b
+//@   requires b >= 0 && b <= len(mp)
+//@   ensures forall a int :: {mpolyOff(mp, a)} 0 <= a && a <= b ==> mpolyOff(mp, a) <= mpolyOff(mp, b)
+
+//@ lemma mpolyOff_end(mp geom.MultiPolygon, b int)
+//@   induction b
+//@   requires b >= 0 && b <= len(mp)
+//@   ensures forall a int :: {mpolyOff(mp, a)} 0 <= a && a < b ==> mpolyOff(mp, a) + 3 + 2 * len(mp[a]) <= mpolyOff(mp, b)
+
+//@ func writeMultiPolygon
+//@   prop C05
+//@   mode ufloat
+//@   requires [stream] typeof(w) != nil && typeof(byteOrder) != nil
+//@   requires [counts_fit] len(multiPolygon) <= 4294967295 && (forall k int, j int :: 0 <= k && k < len(multiPolygon) ==> len(multiPolygon[k]) <= 4294967295 && (0 <= j && j < len(multiPolygon[k]) ==> len(multiPolygon[k][j]) <= 4294967295))
+//@   ensures [count] result == nil ==> ghost(w, "n") == old(ghost(w, "n")) + 1 + mpolyOff(multiPolygon, len(multiPolygon))
+//@   ensures [prefix] result == nil ==> (forall i int :: i < old(ghost(w, "n")) ==> ghostAt(w, "tok", i) == old(ghostAt(w, "tok", i)))
+//@   ensures [body] result == nil ==> u32At(w, old(ghost(w, "n")), orderCode(byteOrder), len(multiPolygon)) && (forall k int :: {mpolyOff(multiPolygon, k)} 0 <= k && k < len(multiPolygon) ==> polyEncAt(w, old(ghost(w, "n")) + 1 + mpolyOff(multiPolygon, k), orderCode(byteOrder), multiPolygon[k]))
+//@   modifies ghost(w, "n"), ghost(w, "tok")
+//@   loop 1 `for _, polygon := range multiPolygon`
+//@     invariant [count] #1 <= len(multiPolygon) && ghost(w, "n") == old(ghost(w, "n")) + 1 + mpolyOff(multiPolygon, #1) && mpolyOff(multiPolygon, #1) >= 0
+//@     using mpolyOff_nonneg(multiPolygon, #1), mpolyOff_nonneg(multiPolygon, #1 + 1)
+//@     invariant [prefix] forall i int :: i < old(ghost(w, "n")) ==> ghostAt(w, "tok", i) == old(ghostAt(w, "tok", i))
+//@     invariant [length_token] u32At(w, old(ghost(w, "n")), orderCode(byteOrder), len(multiPolygon))
+//@     invariant [ends] forall k int :: {mpolyOff(multiPolygon, k)} 0 <= k && k < #1 ==> mpolyOff(multiPolygon, k) >= 0 && mpolyOff(multiPolygon, k) + 3 + 2 * len(multiPolygon[k]) <= mpolyOff(multiPolygon, #1)
+//@     invariant [members] forall k int :: {mpolyOff(multiPolygon, k)} 0 <= k && k < #1 ==> polyEncAt(w, old(ghost(w, "n")) + 1 + mpolyOff(multiPolygon, k), orderCode(byteOrder), multiPolygon[k])
+
+//@ func writeGeometryCollection
+//@   prop C05
+//@   mode ufloat
+//@   requires [stream] typeof(w) != nil && typeof(byteOrder) != nil
+//@   requires [count_fits] len(geometryCollection) <= 4294967295 && (forall k int :: 0 <= k && k < len(geometryCollection) ==> sizesFit(geometryCollection[k]))
+//@   ensures [grows] result == nil ==> ghost(w, "n") >= old(ghost(w, "n")) + 1
+//@   ensures [prefix] result == nil ==> (forall i int :: i < old(ghost(w, "n")) ==> ghostAt(w, "tok", i) == old(ghostAt(w, "tok", i)))
+//@   ensures [length_token] result == nil ==> u32At(w, old(ghost(w, "n")), orderCode(byteOrder), len(geometryCollection))
+//@   modifies ghost(w, "n"), ghost(w, "tok")
+//@   loop 1 `for _, geom := range geometryCollection`
+//@     invariant [count] #1 <= len(geometryCollection) && ghost(w, "n") >= old(ghost(w, "n")) + 1
+//@     invariant [prefix] forall i int :: i < old(ghost(w, "n")) ==> ghostAt(w, "tok", i) == old(ghostAt(w, "tok", i))
+//@     invariant [length_token] u32At(w, old(ghost(w, "n")), orderCode(byteOrder), len(geometryCollection))
